@@ -8,6 +8,6 @@ for d in "$@"; do
   git apply $d/patch.diff 2>/dev/null || { echo "$d: patch does not apply"; continue; }
   out=$(/verif/bin/jivacheck -property $own -verif /tmp/benign_verif 2>&1); rc=$?
   rules=$(echo "$out" | grep -A1 "^VIOLATION" | grep -o "C[0-9][0-9]-[A-Z0-9-]*\|INTERNAL" | sort -u | tr '\n' ',')
-  git checkout -- .
+  git checkout -- . && git clean -fdq
   echo "$d (own=$own) -> rc=$rc[$rules]"
 done
